@@ -2637,7 +2637,11 @@ def r06_5_dumper_sinks(ctx, rid='R06.5'):
         de = kwarg(c, 'Dumper')
         cl = _value_classes(P, fi, de) if de is not None else []
         fac = factory_of(fi)
-        ok = bool(cl) and all(P.is_subclass(k, 'yatiml.dumper:Dumper') and k.parent_func is fac for k in cl)
+        # the callable may be a module-level class that is handed the factory's class: then the class must still be one that a
+        # factory function made for this call (not a dumper shared at module level)
+        module_level = fi.cls is not None and fi.cls.parent_func is None
+        ok = bool(cl) and all(P.is_subclass(k, 'yatiml.dumper:Dumper') and (k.parent_func is fac or (module_level and k.parent_func is not None))
+                              for k in cl)
         sink = 'stream' if len(c.args) > 1 else 'string'
         r.check(ok, '%s: yaml.dump(.., Dumper=%s) -> %s' % (fi.qual, norm(de) if de is not None else None, [k.qual for k in cl]),
                 '%s:yaml.dump:Dumper:%s' % (fi.key, _site_tag(fi, c)), fi.loc(c),
@@ -2702,6 +2706,8 @@ def r12_sinks(ctx):
             if isinstance(n, ast.Name) and n.id == name and n is not e and n is not inits[0].targets[0]:
                 par = parent(n)
                 st = parent(par) if par is not None else None
+                if isinstance(par, ast.keyword) and par.arg is None:
+                    continue        # handed on as **options at another dump site
                 if not (isinstance(par, ast.Subscript) and isinstance(par.ctx, ast.Store) and isinstance(par.slice, ast.Constant)
                         and isinstance(st, ast.Assign) and len(st.targets) == 1 and st.targets[0] is par):
                     return None
